@@ -43,18 +43,8 @@ var maintenanceMethods = map[string]struct{}{
 	"ListTables":          {},
 	"DescribeTable":       {},
 	"VerifiableSQLGet":    {},
-	"CreateCollection":    {},
 	"GetCollection":       {},
 	"GetCollections":      {},
-	"UpdateCollection":    {},
-	"DeleteCollection":    {},
-	"AddField":            {},
-	"RemoveField":         {},
-	"CreateIndex":         {},
-	"DeleteIndex":         {},
-	"InsertDocuments":     {},
-	"ReplaceDocuments":    {},
-	"DeleteDocuments":     {},
 	"SearchDocuments":     {},
 	"CountDocuments":      {},
 	"AuditDocument":       {},
